@@ -184,6 +184,11 @@ int FileCacheStore::stat(CacheStat* stat) {
 int FileCacheStore::evict(off_t offset, size_t count, int flags) {
   int ret;
   if (static_cast<size_t>(-1) == count) {
+    // A trim must never extend the media file: a store opened later takes its
+    // initial size from the media file, and bytes past the source's end would be
+    // served as cached zeros.
+    struct stat st = {};
+    if (localFile_->fstat(&st) == 0 && offset >= st.st_size) return 0;
     ret = localFile_->ftruncate(offset);
   } else {
     #ifndef FALLOC_FL_KEEP_SIZE
